@@ -4,7 +4,7 @@ import pandas as pd
 from hypothesis import strategies as st
 
 from core.outcome import Outcome, discard, observe
-from gen.objects import CARVERS, PIPELINES, STEPS, fit_object, fitted_case, make_object
+from gen.objects import CARVERS, PIPELINES, STEPS, fit_object, fitted_case, make_object, object_dropna
 from gen.samples import build
 from oracles.mapping import content_of, eq, is_missing, is_num, known_values, ref_group, values_equal
 from oracles.views import feature_views
@@ -26,7 +26,7 @@ BOUNDS = {"rows_new_frame": "0-8", "frames_per_fit": "3-5", "train_rows": "12-40
 ASSUMPTIONS = ["new frames always carry every fitted column (missing columns are C19's subject)"]
 BUDGET = {"quick": 800, "thorough": 30000}
 DEADLINE_S = {"quick": 200, "thorough": 3300}
-CLASSES = CARVERS + PIPELINES + STEPS + ("BinaryCarver", "ContinuousCarver", "Discretizer")
+CLASSES = CARVERS + PIPELINES + STEPS + ("BinaryCarver", "ContinuousCarver", "Discretizer", "ChainedDiscretizer")
 STR_NAN, STR_DEFAULT = "__NAN__", "__OTHER__"
 UNSEEN = ["UNSEEN_a", "unseen b", 98765, 1234.5, "98765", "nan", "None", ""]
 INF = float("inf")
@@ -113,7 +113,7 @@ def check_case(case) -> Outcome:
         return discard("no-feature-kept", out.labels)
     is_carver = cls in CARVERS
     out_float = is_carver and cfg["output_dtype"] == "float"
-    dropna = cfg.get("dropna", True) if is_carver else True
+    dropna = object_dropna(case)
 
     train_out = observe(obj.transform, sample.X.copy())
     if not train_out.ok:
